@@ -251,6 +251,28 @@ pub struct K3 {
     pub y: [Option<K2<G<A3>>>; 2],
 }
 
+/// A container hidden behind a type alias.
+pub type Items = Vec<F1>;
+
+#[derive(TS)]
+#[ts(export_to = p(27), rename = n(27))]
+pub struct K5<T> {
+    pub rows: T,
+}
+
+#[derive(TS)]
+#[ts(export_to = p(28), rename = n(28))]
+pub struct K4 {
+    // longer than the tuple limit: rendered as Array<..>
+    pub big: [A3; 65],
+    pub alias: Items,
+    // a container as the argument of a generic, by name and inlined
+    pub page: K5<Vec<D0>>,
+    #[ts(inline)]
+    pub inl: K5<Vec<A1>>,
+    pub exact: [C0; 64],
+}
+
 // ---- family L: literal attributes, as in ordinary user code -------------------------------
 
 #[derive(TS)]
@@ -283,7 +305,7 @@ pub struct L3 {
 pub struct L4(pub String);
 
 /// Number of definitions that read the table (`p(i)` / `n(i)`).
-pub const DER_DEFS: usize = 27;
+pub const DER_DEFS: usize = 29;
 
 #[derive(Clone, Copy, Debug)]
 pub enum Place {
@@ -344,7 +366,9 @@ pub const K1_: usize = 33;
 pub const K2_A1: usize = 34;
 pub const K2_G_A3: usize = 35;
 pub const K3_: usize = 36;
-pub const DER_HANDLES: usize = 37;
+pub const K4_: usize = 37;
+pub const K5_VEC_D0: usize = 38;
+pub const DER_HANDLES: usize = 39;
 
 use Place::{Lit, RenameOnly, Table as Tb};
 
@@ -414,6 +438,10 @@ pub const MANIFEST: [DerInfo; DER_HANDLES] = [
     DerInfo { label: "K2<G<A3>>", place: Tb(25), import_refs: &[A2_], reach_refs: &[A2_, G_A3, A3_] },
     // type K3 = { x: K2<A1>, y: [K2<G<A3>> | null, K2<G<A3>> | null] };
     DerInfo { label: "K3", place: Tb(26), import_refs: &[K2_A1, A1_, G_A3, A3_], reach_refs: &[K2_A1, K2_G_A3, A1_, G_A3, A3_] },
+    // type K4 = { big: Array<A3>, alias: Array<F1>, page: K5<Array<D0>>, inl: { rows: Array<A1> }, exact: [C0, .. x64] };
+    DerInfo { label: "K4", place: Tb(28), import_refs: &[A3_, F1_, K5_VEC_D0, D0_, A1_, C0_], reach_refs: &[A3_, F1_, K5_VEC_D0, D0_, A1_, C0_] },
+    // type K5<T> = { rows: T };
+    DerInfo { label: "K5<Vec<D0>>", place: Tb(27), import_refs: &[], reach_refs: &[D0_] },
 ];
 
 pub fn der_handle(h: usize) -> Handle {
@@ -456,6 +484,8 @@ pub fn der_handle(h: usize) -> Handle {
         K2_A1 => handle::<K2<A1>>(l),
         K2_G_A3 => handle::<K2<G<A3>>>(l),
         K3_ => handle::<K3>(l),
+        K4_ => handle::<K4>(l),
+        K5_VEC_D0 => handle::<K5<Vec<D0>>>(l),
         _ => panic!("no such derived handle {h}"),
     }
 }
